@@ -93,6 +93,8 @@ var checks = map[string]*check{
 		Parts: []part{
 			{Name: "histories", Kind: "explore", Scen: "broker_hist", Inst: inst("quick", "thorough3"), Depths: depths([]int{2}, []int{2, 3}), Budget: budget(6*time.Minute, 25*time.Minute)},
 			// 1300 repeated dials to one pending id (default schedule), then an unmatched accept, an unmatched dial and a fresh matched pair
+			// gRPC broker: an acceptor that announced its listener and gave it up at once, dialled with the caller's own grpc.WithBlock()
+			{Name: "blocking-dial", Kind: "explore", Scen: "broker_hist", Inst: inst("blockdial", "blockdial"), Depths: depths([]int{0, 1}, []int{0, 1, 2}), Budget: budget(2*time.Minute, 10*time.Minute)},
 			{Name: "mass-duplicates", Kind: "explore", Scen: "broker_hist", Inst: inst("mass", "mass"), Depths: depths([]int{0}, []int{0}), Budget: budget(3*time.Minute, 5*time.Minute)},
 			{Name: "conformance", Kind: "conform", Scen: "broker_hist"},
 		},
